@@ -155,7 +155,7 @@ theorem pv_redirect_finalize (pg : Page) (c : Nat) (s : St) :
 open Point in
 theorem handleError_pv (pg : Page) (s : St) :
     pv (handleError pg s).j <+: [beforeErrorResponse, afterErrorResponse] := by
-  unfold handleError
+  unfold handleError handleErrorTry
   have h := (((show Chain (runPoint pg .beforeErrorResponse s) [beforeErrorResponse] from
     ⟨fun _ => pv_runPoint _ _ _, by simp⟩).step
     (callErrorResponse pg) [] (pv_callErrorResponse pg)).step
@@ -181,7 +181,7 @@ theorem runRequest_pv (pg : Page) (m : Method) (nh bq : Bool) :
   have hresp : ∃ err, pv (respond pg m nh bq {}).j =
       pv (doRespond pg m nh bq {}).j ++ x ++ [onEndResource] ++ err
       ∧ err <+: [beforeErrorResponse, afterErrorResponse] := by
-    unfold respond
+    unfold respond protectedBlock
     simp only [R.finallyDo]
     split
     · exact ⟨[], by simp [hx], List.nil_prefix⟩
@@ -300,7 +300,7 @@ theorem appResponse_spec (pg : Page) (m : Method) (nh bq : Bool) (r : Nat) :
     closeCount (appResponse pg m nh bq r).1 = 0 ∧
     match (appResponse pg m nh bq r).2 with
     | .served _ => visits r (appResponse pg m nh bq r).1 ∈ coreList
-    | .raised _ => visits r (appResponse pg m nh bq r).1 ∈ closedList := by
+    | .raised _ _ => visits r (appResponse pg m nh bq r).1 ∈ closedList := by
   have hc := runRequest_core pg m nh bq
   unfold appResponse
   simp only []
@@ -329,43 +329,43 @@ def RedirOk (r : Nat) (j : List Entry) : Redir → Prop
       ∀ r', r' ≠ rl → (visits r' j = [] ∨ visits r' j ∈ closedList)
   | _ => ∀ r', (visits r' j = [] ∨ visits r' j ∈ closedList)
 
-theorem redirector_succ (pages : List Page) (nh : Bool) (fuel : Nat) (visited : List (Nat × Bool))
+theorem redirector_succ (pages : List Page) (nh gtb : Bool) (fuel : Nat) (visited : List (Nat × Bool))
     (cur : Nat) (m : Method) (bq : Bool) (r : Nat) :
-    redirector pages nh (fuel + 1) visited cur m bq r =
-      match (appResponse (pages.getD cur notFoundPage) m nh bq r).2 with
-      | .served st => ((appResponse (pages.getD cur notFoundPage) m nh bq r).1,
-                       .served st (pages.getD cur notFoundPage) r)
-      | .raised e =>
+    redirector pages nh gtb (fuel + 1) visited cur m bq r =
+      match (appResponse (pages.getD cur (notFoundPage gtb)) m nh bq r).2 with
+      | .served st => ((appResponse (pages.getD cur (notFoundPage gtb)) m nh bq r).1,
+                       .served st (pages.getD cur (notFoundPage gtb)) r)
+      | .raised e tb =>
         match e with
         | .internalRedirect t =>
           if (t, false) ∈ visited ++ [(cur, bq)] then
-            ((appResponse (pages.getD cur notFoundPage) m nh bq r).1, .raised .exc)
+            ((appResponse (pages.getD cur (notFoundPage gtb)) m nh bq r).1, .raised .exc tb)
           else
-            ((appResponse (pages.getD cur notFoundPage) m nh bq r).1 ++
-               (redirector pages nh fuel (visited ++ [(cur, bq)]) t .get false (r + 1)).1,
-             (redirector pages nh fuel (visited ++ [(cur, bq)]) t .get false (r + 1)).2)
-        | e => ((appResponse (pages.getD cur notFoundPage) m nh bq r).1, .raised e) := by
+            ((appResponse (pages.getD cur (notFoundPage gtb)) m nh bq r).1 ++
+               (redirector pages nh gtb fuel (visited ++ [(cur, bq)]) t .get false (r + 1)).1,
+             (redirector pages nh gtb fuel (visited ++ [(cur, bq)]) t .get false (r + 1)).2)
+        | e => ((appResponse (pages.getD cur (notFoundPage gtb)) m nh bq r).1, .raised e tb) := by
   rfl
 
-theorem redirector_spec (pages : List Page) (nh : Bool) (fuel : Nat) :
+theorem redirector_spec (pages : List Page) (nh gtb : Bool) (fuel : Nat) :
     ∀ (visited : List (Nat × Bool)) (cur : Nat) (m : Method) (bq : Bool) (r : Nat),
-    (∀ r', r' < r → visits r' (redirector pages nh fuel visited cur m bq r).1 = []) ∧
-    closeCount (redirector pages nh fuel visited cur m bq r).1 = 0 ∧
-    RedirOk r (redirector pages nh fuel visited cur m bq r).1 (redirector pages nh fuel visited cur m bq r).2 := by
+    (∀ r', r' < r → visits r' (redirector pages nh gtb fuel visited cur m bq r).1 = []) ∧
+    closeCount (redirector pages nh gtb fuel visited cur m bq r).1 = 0 ∧
+    RedirOk r (redirector pages nh gtb fuel visited cur m bq r).1 (redirector pages nh gtb fuel visited cur m bq r).2 := by
   induction fuel with
   | zero => intro _ _ _ _ _; exact ⟨fun _ _ => rfl, rfl, fun _ => Or.inl rfl⟩
   | succ fuel ih =>
     intro visited cur m bq r
-    obtain ⟨hA, hC, hS⟩ := appResponse_spec (pages.getD cur notFoundPage) m nh bq r
+    obtain ⟨hA, hC, hS⟩ := appResponse_spec (pages.getD cur (notFoundPage gtb)) m nh bq r
     rw [redirector_succ]
-    generalize appResponse (pages.getD cur notFoundPage) m nh bq r = ar at hA hC hS ⊢
+    generalize appResponse (pages.getD cur (notFoundPage gtb)) m nh bq r = ar at hA hC hS ⊢
     obtain ⟨j, ini⟩ := ar
     simp only at hA hC hS ⊢
     cases ini with
     | served st =>
       simp only at hS ⊢
       exact ⟨fun r' h => hA r' (by omega), hC, Nat.le_refl _, hS, fun r' h => Or.inl (hA r' h)⟩
-    | raised e =>
+    | raised e tb =>
       simp only at hS ⊢
       have closedHere : ∀ r', (visits r' j = [] ∨ visits r' j ∈ closedList) := by
         intro r'
@@ -378,7 +378,7 @@ theorem redirector_spec (pages : List Page) (nh : Bool) (fuel : Nat) :
         split
         · exact ⟨fun r' h => hA r' (by omega), hC, closedHere⟩
         · obtain ⟨hA2, hC2, hS2⟩ := ih (visited ++ [(cur, bq)]) t .get false (r + 1)
-          generalize redirector pages nh fuel (visited ++ [(cur, bq)]) t .get false (r + 1) = res at hA2 hC2 hS2 ⊢
+          generalize redirector pages nh gtb fuel (visited ++ [(cur, bq)]) t .get false (r + 1) = res at hA2 hC2 hS2 ⊢
           obtain ⟨j2, red⟩ := res
           simp only at hA2 hC2 hS2 ⊢
           refine ⟨fun r' h => ?_, ?_, ?_⟩
@@ -396,7 +396,7 @@ theorem redirector_spec (pages : List Page) (nh : Bool) (fuel : Nat) :
               · by_cases h' : r' = r
                 · subst h'; exact Or.inr mine
                 · rw [merge r' h']; exact hrest r' h
-            | raised e =>
+            | raised e tb =>
               intro r'
               by_cases h' : r' = r
               · subst h'; exact Or.inr mine
@@ -430,9 +430,9 @@ theorem visits_closeCalls (pg : Page) (r r' : Nat) (st : St) (n : Nat) :
 theorem call_spec (p : Plan) (r : Nat) :
     visits r (call p).j = [] ∨ visits r (call p).j ∈ closedList ∨
       (p.closes = 0 ∧ visits r (call p).j ∈ coreList) := by
-  obtain ⟨_, _, hS⟩ := redirector_spec p.pages p.noHost (p.pages.length + 2) [] p.start p.meth p.badQuery 0
+  obtain ⟨_, _, hS⟩ := redirector_spec p.pages p.noHost p.globalTb (p.pages.length + 2) [] p.start p.meth p.badQuery 0
   unfold call
-  generalize redirector p.pages p.noHost (p.pages.length + 2) [] p.start p.meth p.badQuery 0 = res at hS ⊢
+  generalize redirector p.pages p.noHost p.globalTb (p.pages.length + 2) [] p.start p.meth p.badQuery 0 = res at hS ⊢
   obtain ⟨j, red⟩ := res
   cases red with
   | outOfFuel =>
@@ -441,7 +441,7 @@ theorem call_spec (p : Plan) (r : Nat) :
     rcases hS r with h | h
     · exact Or.inl h
     · exact Or.inr (Or.inl h)
-  | raised e =>
+  | raised e tb =>
     simp only [trapCatches, if_true] at hS ⊢
     simp only [visits_append, visits_start, visits_replicate_close, List.append_nil]
     rcases hS r with h | h
@@ -500,14 +500,14 @@ theorem C09_end_request_not_without_close (p : Plan) (r : Nat) :
 
 /-- Request object 0 always takes part (non-vacuity of the hypotheses above). -/
 theorem request_zero_present (p : Plan) : visits 0 (call p).j ≠ [] := by
-  have hA := appResponse_spec (p.pages.getD p.start notFoundPage) p.meth p.noHost p.badQuery 0
-  have hne : visits 0 (appResponse (p.pages.getD p.start notFoundPage) p.meth p.noHost p.badQuery 0).1 ≠ [] := by
+  have hA := appResponse_spec (p.pages.getD p.start (notFoundPage p.globalTb)) p.meth p.noHost p.badQuery 0
+  have hne : visits 0 (appResponse (p.pages.getD p.start (notFoundPage p.globalTb)) p.meth p.noHost p.badQuery 0).1 ≠ [] := by
     obtain ⟨_, _, h⟩ := hA
     split at h
     · exact (coreList_facts _ h).2.2.2
     · exact (closedList_facts _ h).2.2.2
-  have hred : ∃ rest, (redirector p.pages p.noHost (p.pages.length + 2) [] p.start p.meth p.badQuery 0).1 =
-      (appResponse (p.pages.getD p.start notFoundPage) p.meth p.noHost p.badQuery 0).1 ++ rest := by
+  have hred : ∃ rest, (redirector p.pages p.noHost p.globalTb (p.pages.length + 2) [] p.start p.meth p.badQuery 0).1 =
+      (appResponse (p.pages.getD p.start (notFoundPage p.globalTb)) p.meth p.noHost p.badQuery 0).1 ++ rest := by
     rw [show p.pages.length + 2 = (p.pages.length + 1) + 1 from rfl, redirector_succ]
     split
     · exact ⟨[], by simp⟩
@@ -518,7 +518,7 @@ theorem request_zero_present (p : Plan) : visits 0 (call p).j ≠ [] := by
       · exact ⟨[], by simp⟩
   obtain ⟨rest, hrest⟩ := hred
   have hcall : ∃ more, (call p).j =
-      (redirector p.pages p.noHost (p.pages.length + 2) [] p.start p.meth p.badQuery 0).1 ++ more := by
+      (redirector p.pages p.noHost p.globalTb (p.pages.length + 2) [] p.start p.meth p.badQuery 0).1 ++ more := by
     unfold call
     split
     · rename_i heq; exact ⟨List.replicate p.closes .closeCall, by simp only [heq]⟩
@@ -560,16 +560,16 @@ theorem C09_end_request_at_first_close (p : Plan) :
             .closeCall :: tag rl (.visit .onEndRequest ::
               ((CpModel.Hooks.run (hooksAt pg st .onEndRequest)).1.map fun h => Ev.hook .onEndRequest h.id))
             ++ List.replicate n .closeCall) := by
-  obtain ⟨_, hC, hS⟩ := redirector_spec p.pages p.noHost (p.pages.length + 2) [] p.start p.meth p.badQuery 0
+  obtain ⟨_, hC, hS⟩ := redirector_spec p.pages p.noHost p.globalTb (p.pages.length + 2) [] p.start p.meth p.badQuery 0
   unfold call
-  generalize redirector p.pages p.noHost (p.pages.length + 2) [] p.start p.meth p.badQuery 0 = res at hC hS ⊢
+  generalize redirector p.pages p.noHost p.globalTb (p.pages.length + 2) [] p.start p.meth p.badQuery 0 = res at hC hS ⊢
   obtain ⟨j, red⟩ := res
   cases red with
   | outOfFuel =>
     -- (unreachable, see `CpProofs.C01.fuel_sufficient`)
     simp only at hC ⊢
     exact ⟨j, hC, Or.inl rfl⟩
-  | raised e =>
+  | raised e tb =>
     simp only [trapCatches, if_true] at hC ⊢
     refine ⟨j ++ [.start 500 true], ?_, Or.inl rfl⟩
     simp only [closeCount, List.count_append] at hC ⊢
